@@ -10,7 +10,7 @@ import ast
 import itertools
 from typing import Any, Dict, List, Optional, Tuple
 
-from ..model import ClassInfo, iter_own_nodes
+from ..model import strip_opt, ClassInfo, iter_own_nodes
 from ..template import Evaluator, TStr, Lit, Hole, AltS, RepS, FqnS, CommentS, OpaqueS, Cond, Sym, TRUE, FALSE
 from ..cxxlex import lex, tok_text, toks_text
 from ..flow import always_raises
@@ -367,10 +367,48 @@ def check(ctx):
         run.error('C20.pure-render', MOD, '-', 'render functions', f'only {n_r} render functions of cpp_gen found (15+ expected)')
     # ---- C20.validators ------------------------------------------------------------------------------------------------------------------
     _validators(ctx)
+    _whole_block(ctx)
     run.floor('C20.same-entity', 5)
     run.floor('C20.decl-only', 3)
     run.floor('C20.def-only', 6)
     run.floor('C20.balanced', 12)
+
+
+def _whole_block(ctx):
+    """C20.whole-block: a building block embeds the text blocks it was given as blocks.  Reading `<TextBlock>.lines` for
+    anything but an emptiness test takes the content lines only - the header of the block (TextBlock(content, header=...))
+    and its pending indentation are left behind."""
+    run, prog, cg = ctx.run, ctx.prog, ctx.cg
+    tb = prog.cls('text_gen', 'TextBlock')
+    n_tests = 0
+    for fn in prog.all_functions():
+        if not fn.module.name.startswith(('dznpy.cpp_gen', 'dznpy.adv_shell', 'dznpy.support_files')):
+            continue
+        env = cg.env(fn)
+        for n in iter_own_nodes(fn.node):
+            if not (isinstance(n, ast.Attribute) and n.attr in ('lines', '_lines') and isinstance(n.ctx, ast.Load)):
+                continue
+            t = strip_opt(env.type_of(n.value))
+            ts = t[1] if t[0] == 'union' else [t]
+            if not any(strip_opt(x) == ('cls', tb.fq) for x in ts):
+                continue
+            # test position?
+            child, p, is_test = n, prog.parent(n), False
+            while p is not None and not isinstance(p, ast.stmt):
+                if (isinstance(p, ast.IfExp) and child is p.test) or isinstance(p, (ast.BoolOp, ast.Compare)) or \
+                        (isinstance(p, ast.UnaryOp) and isinstance(p.op, ast.Not)) or \
+                        (isinstance(p, ast.Call) and getattr(p.func, 'id', '') in ('len', 'bool', 'any', 'all')):
+                    is_test = True
+                    break
+                child, p = p, prog.parent(p)
+            if isinstance(p, (ast.If, ast.While, ast.Assert)) and child is p.test:
+                is_test = True
+            n_tests += 1
+            run.add('C20.whole-block', fn.module.name, fn.qualname, n, is_test,
+                    f'`{ast.unparse(n)}` is only tested for emptiness' if is_test else
+                    f'`{ast.unparse(n)}` takes the content lines out of a text block: a header given to that block '
+                    f'(TextBlock(content, header=...)) is not rendered - the block has to be embedded as a whole', node=n)
+    run.floor('C20.whole-block', 2)
 
 
 def _balanced(ctx, where: str, t: TStr, require_contents: Tuple[str, ...], closing: Optional[List[str]] = None):
